@@ -166,6 +166,41 @@ pub fn confirm_hashsim(v: &Value) -> Result<bool, String> {
     }
 }
 
+/// Shrinks the program of a seed-dependent / direct candidate: ddmin over its top-level statements
+/// (split with the grammar's own `input` rule), keeping a candidate only while the same class of
+/// difference persists between the same two key seeds in fresh processes.
+fn minimise_program(c: &Value) -> Value {
+    let class = c["class"].as_str().unwrap_or("").to_string();
+    if c["runs"][0]["subject"]["kind"].as_str() != Some("program") {
+        return c.clone();
+    }
+    let text = c["runs"][0]["subject"]["text"].as_str().unwrap_or("").to_string();
+    let Some(stmts) = crate::replsim::split_statements(&text) else { return c.clone() };
+    if stmts.len() < 2 {
+        return c.clone();
+    }
+    let with_text = |t: &str| {
+        let mut v = c.clone();
+        if let Some(runs) = v["runs"].as_array_mut() {
+            for r in runs.iter_mut() {
+                r["subject"]["text"] = json!(t);
+            }
+        }
+        v
+    };
+    let mut trials = 0;
+    let min = crate::ddmin::ddmin(&stmts, |cand| {
+        trials += 1;
+        trials <= 400 && confirm_hashsim(&with_text(&cand.join(";\n"))).unwrap_or(false)
+    });
+    let mut out = with_text(&min.join(";\n"));
+    out["original_program"] = json!(text);
+    out["minimise_trials"] = json!(trials);
+    out["detail"] = json!(format!("{} [program minimised from {} to {} statements: {}]", c["detail"].as_str().unwrap_or(""), stmts.len(), min.len(), min.join("; ")));
+    let _ = class;
+    out
+}
+
 /// A candidate whose two outcomes agree when each run is executed alone in a fresh process: the
 /// difference must come from what the worker process had executed before. Finds which of the two
 /// in-batch outcomes deviates from the isolated one, re-creates the worker's run history up to it
@@ -330,6 +365,7 @@ pub fn check_hashsim(property: &str, tier: &str) -> i32 {
     let mut unconfirmed = 0;
     let mut history_searches = 0;
     let mut skipped_history = 0;
+    let mut minimised_programs = 0;
     for c in candidates {
         let sid = format!("{}|{}", c["subject_id"].as_str().unwrap_or(""), c["class"].as_str().unwrap_or(""));
         if !seen_subjects.insert(sid) {
@@ -341,7 +377,12 @@ pub fn check_hashsim(property: &str, tier: &str) -> i32 {
         let plain = if c["class"].as_str() == Some("history-dependent") { Ok(false) } else { confirm_hashsim(&c) };
         match plain {
             Ok(true) => {
-                let mut c = c;
+                let mut c = if minimised_programs < 6 {
+                    minimised_programs += 1;
+                    minimise_program(&c)
+                } else {
+                    c
+                };
                 c["sim"] = json!("hashsim");
                 confirmed.push(c);
             }
@@ -731,7 +772,7 @@ pub fn check_ossim(property: &str, tier: &str) -> i32 {
                 }
                 add(&mut faults, &v["faults_fired"]);
                 add(&mut natural, &v["natural_errors"]);
-                for k in ["torn_effects", "torn_seen_by_later_read", "fault_right_after_create", "lang_route_rejected", "distinct_final_states", "validated_against_real_fs", "table_runs"] {
+                for k in ["torn_effects", "torn_seen_by_later_read", "fault_right_after_create", "lang_route_rejected", "distinct_final_states", "validated_against_real_fs", "table_runs", "single_fault_enumeration_runs"] {
                     *counters.entry(k.to_string()).or_default() += v[k].as_u64().unwrap_or(0);
                 }
                 for h in v["harness_errors"].as_array().cloned().unwrap_or_default() {
@@ -795,7 +836,7 @@ pub fn check_ossim(property: &str, tier: &str) -> i32 {
     let (level, rule, exhaustive) = if property == "C03" {
         (
             "fault_enumeration",
-            "Complete enumeration of: 6 program forms containing `import \"p\"` x 16 states of the file p (absent, directory, empty, valid module, syntax error, type error, constant folding fails, non-UTF-8, undefined name, misplaced break/return, unterminated string, oversized literal, importing q) x, when p imports q, 15 states of q x {no fault, each of 18 errno kinds on the first read, 4 errno kinds on the second read}. Each case: Code::parse under catch_unwind against the simulated FS; oracle: Ok or Err, never a panic; a failed first read surfaces as Error::IO of that kind; an accepted program executes without panic and a valid module yields exactly its top-level names. distinct_nontrivial = distinct (p state, q state, fault kind) combinations reached. ONLY this clause of C03 is covered: totality over arbitrary text is input enumeration and outside this technique family.",
+            "Complete enumeration of: 10 program forms containing `import \"p\"` (bound, bare, inside a function, inside a block, twice, in a branch, twice with member use, diamond p+q, inside a function called twice, after declarations of the importer) x 20 states of the file p (absent, directory, empty, whitespace/comment only, a lone constant, valid module incl. an underscore name, constant last, shadowing the importer's names, syntax error, type error, constant folding fails (2), non-UTF-8, undefined name, misplaced break/return, unterminated string, oversized literal, importing q) x, when p imports q (or the form imports q itself), 19 states of q x {no fault, each of 18 errno kinds on the first read, 4 errno kinds on the second read, 3 errno kinds on both reads}. Each case: Code::parse under catch_unwind against the simulated FS; oracle: Ok or Err, never a panic; a failed first read surfaces as Error::IO of that kind; no program is accepted when its last read failed; an accepted program executes without panic; a readable module (and a nested one) yields exactly its file's top-level names, the importer's names are untouched, and programs using the members evaluate to the values the files define. distinct_nontrivial = distinct (p state, q state, fault kind) combinations reached. ONLY this clause of C03 is covered: totality over arbitrary text is input enumeration and outside this technique family.",
             true,
         )
     } else {
